@@ -687,6 +687,7 @@ class RequestHandler:
             ("domain", domain),
             ("path", path),
             ("samesite", samesite),
+            *kwargs.items(),
         ]:
             # Cookie attributes may not contain control characters or semicolons (except when
             # escaped in the value). A check for control characters was added to the http.cookies
@@ -698,7 +699,10 @@ class RequestHandler:
             # change the timing of the exception (to the generation of the Set-Cookie header in
             # flush()). We may want to add a call to self._new_cookie.output() at the end of this
             # method to ensure that exceptions are raised when they will be most useful.
-            if attr_value is not None and re.search(r"[\x00-\x20\x3b\x7f]", attr_value):
+            if isinstance(attr_value, str) and re.search(
+                r"[\x00-\x1f\x3b\x7f]" if attr_name in kwargs else r"[\x00-\x20\x3b\x7f]",
+                attr_value,
+            ):
                 raise http.cookies.CookieError(
                     f"Invalid cookie attribute {attr_name}={attr_value!r} for cookie {name!r}"
                 )
